@@ -261,6 +261,54 @@ func checkC11(c *h.Check) {
 			}
 		}
 	}
+	// bindings kept in package-level variables, declared one per spec, two per spec (either order), and in a var block:
+	// each name stands for its own initialiser
+	for form := 0; form < 4; form++ {
+		for which := 0; which < 2; which++ {
+			b := ir.NewBuilder()
+			p := b.Root
+			st := b.Iface(p, "Store")
+			mem, disk := b.Leaf(p, "Mem"), b.Leaf(p, "Disk")
+			mem.Impls, disk.Impls = []*ir.Type{st}, []*ir.Type{st}
+			mem.PtrRecv, disk.PtrRecv = true, true
+			app := b.Leaf(p, "App")
+			bm, bd := "WIRE.Bind(new(Store), new(*Mem))", "WIRE.Bind(new(Store), new(*Disk))"
+			var decl string
+			switch form {
+			case 0:
+				decl = "var BindMem = " + bm + "\n\nvar BindDisk = " + bd + "\n"
+			case 1:
+				decl = "var BindMem, BindDisk = " + bm + ", " + bd + "\n"
+			case 2:
+				decl = "var BindDisk, BindMem = " + bd + ", " + bm + "\n"
+			case 3:
+				decl = "var (\n\tBindMem  = " + bm + "\n\tBindDisk = " + bd + "\n)\n"
+			}
+			chosen, name := ir.BindItem(st, ir.Ptr(mem)), "BindMem"
+			if which == 1 {
+				chosen, name = ir.BindItem(st, ir.Ptr(disk)), "BindDisk"
+			}
+			chosen.Raw = name
+			inj := &ir.Injector{Name: "Init", Out: app, Items: []*ir.Item{
+				ir.FuncItem(&ir.Func{Pkg: p, Name: "NewMem", Out: ir.Ptr(mem)}), ir.FuncItem(&ir.Func{Pkg: p, Name: "NewDisk", Out: ir.Ptr(disk)}), chosen,
+				ir.FuncItem(&ir.Func{Pkg: p, Name: "NewApp", Params: []*ir.Type{st, ir.Ptr(mem), ir.Ptr(disk)}, Out: app}),
+			}}
+			prog := &ir.Program{Root: p, Injectors: []*ir.Injector{inj}, ExtraDecl: decl}
+			cs := caseFromProgram(fmt.Sprintf("C11/binding-variables/form=%d/which=%d", form, which), prog, true, map[string]bool{"wiring": true})
+			if c.NoteProgram(cs.Files) {
+				cases = append(cases, cs)
+			}
+		}
+	}
+	// the ill-formed binding sits in the first of two injector files (or the last): rejected either way
+	for swap := 0; swap < 2; swap++ {
+		prog := twoFilesProgram(1, swap == 1)
+		cs := &h.Case{ID: fmt.Sprintf("C11/two-injector-files/bad-bind/last=%d", swap), Files: ir.Render(prog, true), Drive: true,
+			Judge: judgeProgramF(prog, true, map[string]bool{"wiring": true}, map[string]bool{"bad-bind": true})}
+		if c.NoteProgram(cs.Files) {
+			cases = append(cases, cs)
+		}
+	}
 	// two distinct named interfaces with one and the same method set: binding one to the other is not a self-binding;
 	// binding an interface to itself (also through an alias) is
 	for variant := 0; variant < 5; variant++ {
